@@ -100,13 +100,17 @@ Section CtlProofs.
   Lemma ctl_inv_init : ctl_inv ctl_init.
   Proof. repeat split; try constructor. apply nh_inv_nil. Qed.
 
+  Lemma ctl_inv_ext st st' :
+    st_sess st' = st_sess st -> st_next_sid st' = st_next_sid st -> st_an st' = st_an st -> ctl_inv st -> ctl_inv st'.
+  Proof. unfold ctl_inv. intros -> -> ->. tauto. Qed.
+
   Hypothesis OK : nh_data_ok D = true.
 
   (* thread events: the record found is the only one with that sid; [f] keeps the sid and re-establishes ctl_sess_ok *)
   Lemma ctl_inv_update st t s f an :
     ctl_inv st -> ctl_find t (st_sess st) = Some s -> nh_inv D an ->
     (forall x, ss_sid (f x) = ss_sid x) -> ctl_sess_ok (f s) ->
-    ctl_inv {| st_cfgs := st_cfgs st; st_alive := st_alive st; st_next_chan := st_next_chan st; st_next_sid := st_next_sid st;
+    ctl_inv {| st_cfgs := st_cfgs st; st_alive := st_alive st; st_busy := st_busy st; st_closedch := st_closedch st; st_next_chan := st_next_chan st; st_next_sid := st_next_sid st;
                st_sess := ctl_update t f (st_sess st); st_an := an |}.
   Proof.
     intros [H1 [H2 [H3 H4]]] Hf Han Hsid Hok. unfold ctl_inv; cbn. split; [|split; [|split]].
@@ -122,6 +126,9 @@ Section CtlProofs.
     intros Hinv H. pose proof Hinv as [H1 [H2 [H3 H4]]]. destruct e; cbn in H.
     - destruct (ctl_find_cfg name (st_cfgs st)); injection H as <- <-; exact Hinv.
     - injection H as <- <-. exact Hinv.
+    - (* ProxyClose *) injection H as <- <-. exact Hinv.
+    - (* HandoverDone *) destruct (ctl_zin ch (st_busy st)); [|discriminate]. injection H as <- <-. exact Hinv.
+    - (* LoopExit *) destruct (ctl_zin ch (st_alive st) && ctl_zin ch (st_closedch st)); [|discriminate]. injection H as <- <-. exact Hinv.
     - (* Visitor *)
       destruct (ctl_session_only_if_signed_and_live st vm tr user st' outs H)
         as [[E _]|(cfg & s & _ & _ & _ & _ & _ & E & Hsid & _ & _ & _ & Ht & Hp & _)].
@@ -145,7 +152,9 @@ Section CtlProofs.
     - (* Deliver *)
       destruct (ctl_find t (st_sess st)) as [s|] eqn:Ef; [|discriminate].
       destruct (ss_pc s) eqn:Ep; try discriminate. destruct (ctl_zin (ss_chan s) (st_alive st)); [|discriminate].
-      injection H as <- <-. apply (ctl_inv_update st t s); try assumption; [reflexivity|].
+      injection H as <- <-.
+      apply (ctl_inv_ext (ctl_with_sess st (ctl_update t (ctl_set_pc PcWait) (st_sess st)))); try reflexivity.
+      apply (ctl_inv_update st t s); try assumption; [reflexivity|].
       apply ctl_find_some in Ef. destruct Ef as [Ef _]. rewrite Forall_forall in H3. specialize (H3 _ Ef).
       unfold ctl_sess_ok in *. cbn. now rewrite H3, Ep.
     - (* GiveUp *)
@@ -344,7 +353,7 @@ Section CtlProofs.
     ctl_counts_ok st outs -> ctl_find t (st_sess st) = Some s -> (forall x, ss_sid (f x) = ss_sid x) ->
     (forall role, ctl_cnt role t o = ctl_sent role (ss_pc (f s)) - ctl_sent role (ss_pc s)) ->
     (forall role t', t' <> t -> ctl_cnt role t' o = 0) ->
-    ctl_counts_ok {| st_cfgs := st_cfgs st; st_alive := st_alive st; st_next_chan := st_next_chan st; st_next_sid := st_next_sid st;
+    ctl_counts_ok {| st_cfgs := st_cfgs st; st_alive := st_alive st; st_busy := st_busy st; st_closedch := st_closedch st; st_next_chan := st_next_chan st; st_next_sid := st_next_sid st;
                      st_sess := ctl_update t f (st_sess st); st_an := an |} (outs ++ o).
   Proof.
     intros Hc Ef Hf H1 H2 role t'. rewrite ctl_cnt_app. unfold ctl_sent_of; cbn. rewrite ctl_find_update by exact Hf.
@@ -357,12 +366,19 @@ Section CtlProofs.
     ctl_counts_ok st outs -> st_sess st' = st_sess st -> ctl_counts_ok st' (outs ++ []).
   Proof. intros H E role t. rewrite app_nil_r. unfold ctl_sent_of. rewrite E. apply H. Qed.
 
+  Lemma ctl_counts_ext st st' outs : st_sess st' = st_sess st -> ctl_counts_ok st outs -> ctl_counts_ok st' outs.
+  Proof. intros E H role t. unfold ctl_sent_of. rewrite E. apply H. Qed.
+
   Lemma ctl_step_counts st e st' o outs :
     ctl_inv st -> ctl_counts_ok st outs -> ctl_step D auth st e = Some (st', o) -> ctl_counts_ok st' (outs ++ o).
   Proof.
     intros Hinv Hc H. pose proof Hinv as [H1 [H2 [H3 H4]]]. destruct e; cbn in H.
     - destruct (ctl_find_cfg name (st_cfgs st)); injection H as <- <-; intros role t; rewrite ctl_cnt_app; cbn; rewrite Z.add_0_r; apply Hc.
     - injection H as <- <-. (apply (ctl_counts_same_sess st); [assumption|reflexivity]).
+    - injection H as <- <-. (apply (ctl_counts_same_sess st); [assumption|reflexivity]).
+    - destruct (ctl_zin ch (st_busy st)); [|discriminate]. injection H as <- <-. (apply (ctl_counts_same_sess st); [assumption|reflexivity]).
+    - destruct (ctl_zin ch (st_alive st) && ctl_zin ch (st_closedch st)); [|discriminate]. injection H as <- <-.
+      (apply (ctl_counts_same_sess st); [assumption|reflexivity]).
     - (* Visitor *)
       destruct (ctl_session_only_if_signed_and_live st vm tr user st' o H)
         as [[E [e [-> _]]]|(cfg & s & _ & _ & _ & _ & _ & E & Hsid & _ & _ & _ & Ht & Hp & ->)].
@@ -374,7 +390,9 @@ Section CtlProofs.
     - (* Deliver *)
       destruct (ctl_find t (st_sess st)) as [s|] eqn:Ef; [|discriminate].
       destruct (ss_pc s) eqn:Ep; try discriminate. destruct (ctl_zin (ss_chan s) (st_alive st)); [|discriminate].
-      injection H as <- <-. apply (ctl_counts_update st outs t s); try assumption; try reflexivity.
+      injection H as <- <-.
+      apply (ctl_counts_ext (ctl_with_sess st (ctl_update t (ctl_set_pc PcWait) (st_sess st)))); [reflexivity|].
+      apply (ctl_counts_update st outs t s); try assumption; try reflexivity.
       intros role; cbn. rewrite Ep. destruct role; reflexivity.
     - (* GiveUp *)
       destruct (ctl_find t (st_sess st)) as [s|] eqn:Ef; [|discriminate].
@@ -453,5 +471,123 @@ Section CtlProofs.
       + intros [->| ->]; reflexivity.
       + intros [->|[->|[->| ->]]]; reflexivity.
     - split; [lia|discriminate].
+  Qed.
+  (* ---- XTCPProxy.Close removes the registration synchronously ---- *)
+  Lemma ctl_find_cfg_remove name l : ctl_find_cfg name (ctl_remove_cfg name l) = None.
+  Proof.
+    induction l as [|c r IH]; cbn; [reflexivity|]. destruct (bytes_eqb name (cc_name c)) eqn:E; cbn; [exact IH|].
+    rewrite E. exact IH.
+  Qed.
+
+  Lemma ctl_find_cfg_none_in name l c : ctl_find_cfg name l = None -> In c l -> cc_name c <> name.
+  Proof.
+    induction l as [|x r IH]; cbn; [contradiction|]. destruct (bytes_eqb name (cc_name x)) eqn:E; [discriminate|].
+    intros H [->|Hin]; [|now apply IH]. intros Heq. rewrite Heq, nh_bytes_eqb_refl in E. discriminate.
+  Qed.
+
+  Lemma ctl_find_cfg_remove_other name n l : ctl_find_cfg name l = None -> ctl_find_cfg name (ctl_remove_cfg n l) = None.
+  Proof.
+    induction l as [|c r IH]; cbn; [reflexivity|]. destruct (bytes_eqb name (cc_name c)) eqn:E; [discriminate|].
+    intros H. destruct (bytes_eqb n (cc_name c)); cbn; [now apply IH|]. rewrite E. now apply IH.
+  Qed.
+
+  (* Close can be taken in EVERY state (whatever the hand-over goroutine is doing) and leaves the name unregistered *)
+  Lemma ctl_proxy_close st name :
+    exists st', ctl_step D auth st (EvProxyClose name) = Some (st', []) /\ ctl_find_cfg name (st_cfgs st') = None /\
+                st_sess st' = st_sess st.
+  Proof. eexists. cbn. split; [reflexivity|]. cbn. split; [apply ctl_find_cfg_remove|reflexivity]. Qed.
+
+  (* only a new ListenClient of that name (a new proxy) registers it again *)
+  Lemma ctl_unregistered_stays st e st' o name :
+    ctl_find_cfg name (st_cfgs st) = None -> ctl_step D auth st e = Some (st', o) ->
+    (forall sk allow, e <> EvListen name sk allow) -> ctl_find_cfg name (st_cfgs st') = None.
+  Proof.
+    intros Hn H Hne.
+    assert (Hcases : st_cfgs st' = st_cfgs st \/ (exists n, st_cfgs st' = ctl_remove_cfg n (st_cfgs st)) \/
+                     (exists n sk allow ch, e = EvListen n sk allow /\
+                        st_cfgs st' = {| cc_name := n; cc_sk := sk; cc_allow := allow; cc_chan := ch |} :: st_cfgs st)).
+    { destruct e; cbn in H.
+      - destruct (ctl_find_cfg name0 (st_cfgs st)); injection H as <- <-; [left; reflexivity|].
+        right. right. eexists _, _, _, _. split; reflexivity.
+      - injection H as <- <-. right. left. eexists. reflexivity.
+      - injection H as <- <-. right. left. eexists. reflexivity.
+      - destruct (ctl_zin ch (st_busy st)); [|discriminate]. injection H as <- <-. left. reflexivity.
+      - destruct (ctl_zin ch (st_alive st) && ctl_zin ch (st_closedch st)); [|discriminate]. injection H as <- <-. left. reflexivity.
+      - left. revert H. destruct (vm_precheck vm); repeat match goal with |- context [match ?x with _ => _ end] => destruct x end;
+          intros [= <- _]; reflexivity.
+      - left. repeat match type of H with
+             | match ?x with _ => _ end = _ => destruct x eqn:?; try discriminate
+             | (if ?x then _ else _) = _ => destruct x eqn:?; try discriminate
+             end; injection H as <- <-; reflexivity.
+      - left. repeat match type of H with
+             | match ?x with _ => _ end = _ => destruct x eqn:?; try discriminate
+             | (if ?x then _ else _) = _ => destruct x eqn:?; try discriminate
+             end; injection H as <- <-; reflexivity.
+      - left. repeat match type of H with
+             | match ?x with _ => _ end = _ => destruct x eqn:?; try discriminate
+             | (if ?x then _ else _) = _ => destruct x eqn:?; try discriminate
+             end; injection H as <- <-; reflexivity.
+      - left. repeat match type of H with
+             | match ?x with _ => _ end = _ => destruct x eqn:?; try discriminate
+             | (if ?x then _ else _) = _ => destruct x eqn:?; try discriminate
+             end; injection H as <- <-; reflexivity.
+      - left. repeat match type of H with
+             | match ?x with _ => _ end = _ => destruct x eqn:?; try discriminate
+             | (if ?x then _ else _) = _ => destruct x eqn:?; try discriminate
+             end; injection H as <- <-; reflexivity.
+      - left. repeat match type of H with
+             | match ?x with _ => _ end = _ => destruct x eqn:?; try discriminate
+             | (if ?x then _ else _) = _ => destruct x eqn:?; try discriminate
+             end; injection H as <- <-; reflexivity.
+      - left. repeat match type of H with
+             | match ?x with _ => _ end = _ => destruct x eqn:?; try discriminate
+             | (if ?x then _ else _) = _ => destruct x eqn:?; try discriminate
+             end; injection H as <- <-; reflexivity.
+      - left. repeat match type of H with
+             | match ?x with _ => _ end = _ => destruct x eqn:?; try discriminate
+             | (if ?x then _ else _) = _ => destruct x eqn:?; try discriminate
+             end; injection H as <- <-; reflexivity.
+      - left. repeat match type of H with
+             | match ?x with _ => _ end = _ => destruct x eqn:?; try discriminate
+             | (if ?x then _ else _) = _ => destruct x eqn:?; try discriminate
+             end; injection H as <- <-; reflexivity.
+      - left. repeat match type of H with
+             | match ?x with _ => _ end = _ => destruct x eqn:?; try discriminate
+             | (if ?x then _ else _) = _ => destruct x eqn:?; try discriminate
+             end; injection H as <- <-; reflexivity. }
+    destruct Hcases as [->|[[n ->]|(n & sk & allow & ch & -> & ->)]].
+    - exact Hn.
+    - now apply ctl_find_cfg_remove_other.
+    - cbn. destruct (bytes_eqb name n) eqn:E; [|exact Hn].
+      apply nh_bytes_eqb_eq in E. subst n. exfalso. eapply Hne. reflexivity.
+  Qed.
+
+  Lemma ctl_unregistered_run evs : forall st name,
+    ctl_find_cfg name (st_cfgs st) = None -> Forall (fun e => forall sk allow, e <> EvListen name sk allow) evs ->
+    ctl_find_cfg name (st_cfgs (fst (ctl_run D auth st evs))) = None.
+  Proof.
+    induction evs as [|e r IH]; intros st name Hn Hf; cbn; [exact Hn|]. inversion Hf as [|? ? He Hr]; subst.
+    destruct (ctl_step D auth st e) as [[st' o]|] eqn:E.
+    - specialize (IH st' name (ctl_unregistered_stays _ _ _ _ _ Hn E He) Hr). destruct (ctl_run D auth st' r). exact IH.
+    - now apply IH.
+  Qed.
+
+  (* a request naming an unregistered proxy: "doesn't exist" to the requester, no session *)
+  Lemma ctl_visitor_unregistered st vm tr user st' o :
+    ctl_find_cfg (vm_proxy vm) (st_cfgs st) = None -> ctl_step D auth st (EvVisitor vm tr user) = Some (st', o) ->
+    st' = st /\ o = [OutReply tr (nh_err_resp (vm_tid vm) NeNoProxy)].
+  Proof. intros Hn H. cbn in H. rewrite Hn in H. destruct (vm_precheck vm); injection H as <- <-; split; reflexivity. Qed.
+
+  (* all interleavings: once Close has returned, no later HandleVisitor creates a session for that proxy (until a new
+     proxy of that name registers) -- whatever state the hand-over goroutine of the closed proxy is in *)
+  Lemma ctl_no_session_for_closed_proxy st name st1 o1 evs vm tr user st3 o3 :
+    ctl_step D auth st (EvProxyClose name) = Some (st1, o1) ->
+    Forall (fun e => forall sk allow, e <> EvListen name sk allow) evs ->
+    vm_proxy vm = name ->
+    ctl_step D auth (fst (ctl_run D auth st1 evs)) (EvVisitor vm tr user) = Some (st3, o3) ->
+    st3 = fst (ctl_run D auth st1 evs) /\ o3 = [OutReply tr (nh_err_resp (vm_tid vm) NeNoProxy)].
+  Proof.
+    intros Hc Hf Hv H. destruct (ctl_proxy_close st name) as [st1' [E [Hn _]]]. rewrite E in Hc. injection Hc as <- _.
+    apply (ctl_visitor_unregistered _ vm tr user st3 o3); [|exact H]. rewrite Hv. now apply ctl_unregistered_run.
   Qed.
 End CtlProofs.
